@@ -5,6 +5,7 @@ import Comdex.Lemmas.AmmPool
 import Comdex.Lemmas.AmmRanged
 import Comdex.Lemmas.AmmKeeper
 import Comdex.Lemmas.AmmPlace
+import Comdex.Lemmas.AmmOrders
 /-!
 # C05 — Batch matching conserves coins and never fills an order beyond its limits
 
@@ -943,6 +944,68 @@ example : priceToUpTick 1000050000000000000 4 = 1000100000000000000 ∧ priceToD
     lowestTick 4 ≤ 1000050000000000000 ∧ (1000050000000000000 : Int) ≤ highestTick 4 := by
   set_option maxRecDepth 100000 in
   refine ⟨by decide, by decide, by decide, by decide⟩
+
+/-! ## market orders and MM orders at the keeper level — modelled (`Model/AmmOrders.lean`), no longer out of scope
+
+A market order is stored with the limit price `last price ± MaxPriceLimitRatio` fitted to the grid and the offer coin
+`OfferCoinAmount(dir, price, amount)`; an MM order is a ladder of tick orders (`MMOrderTicks`), the orderer's previous ladder is
+canceled first.  After placement they are ordinary stored orders. -/
+
+/-- **the limit price of a market order is a positive tick of the grid** whenever the last price moved by the ratio lies between
+the lowest and the highest tick (`x` = that product, a natural number) -/
+theorem market_order_price_on_grid (prec : Nat) (hprec : 10 ^ prec < 2 ^ 300 - 1) (d : Dir) (lp ratio : Int) (x : Nat)
+    (hx : (match d with | .buy => Dec.mul lp (Dec.one + ratio) | .sell => Dec.mul lp (Dec.one - ratio)) = (x : Int))
+    (h1 : 10 ^ prec ≤ x) (h2 : x ≤ T prec (hiIdx prec)) : GridPrice prec (marketPrice prec d lp ratio) :=
+  marketPrice_grid prec hprec d lp ratio x hx h1 h2
+
+/-- **the tick ladder of an MM order** (`MMOrderTicks`, at least two ticks allowed): when both ends of the price range are ticks
+between the lowest and the highest tick — what `MMOrder` checks — every tick order's price is a positive tick of the grid and every
+amount is `≥ 0` -/
+theorem mm_order_ticks_on_grid (prec : Nat) (hprec : 10 ^ prec < 2 ^ 300 - 1) (d : Dir) (a b : Nat) (amt : Int) (n : Nat)
+    (hn : 2 ≤ n) (ha : 10 ^ prec ≤ a) (hab : a ≤ b) (hb : b ≤ T prec (hiIdx prec))
+    (hga : GridPrice prec (a : Int)) (hgb : GridPrice prec (b : Int)) (hamt : 0 ≤ amt) :
+    ∀ pa ∈ mmOrderTicks d (a : Int) (b : Int) amt n prec, GridPrice prec pa.1 ∧ 0 ≤ pa.2 :=
+  mmOrderTicks_ok prec hprec d a b amt n hn ha hab hb hga hgb hamt
+
+/-- **`order_within_amount` and `order_limit_respected` for limit, market and MM orders together**: for every run of any number
+of batches from the empty pair in which every accepted message is acceptable in the state it is delivered in (`RunOk`: a limit
+order's fitted price, a market order's computed price and an MM order's tick prices are grid prices, amounts `≥ 0` — discharged by
+`place_ok_limit_order`, `market_order_price_on_grid`, `mm_order_ticks_on_grid`), every stored order — whatever its kind, also after
+an MM cancellation — has `0 ≤ OpenAmount ≤ Amount`, `0 ≤ RemainingOfferCoin ≤ OfferCoin`, and passes `monOrderWithinAmount` and
+`monOrderLimit` (a buyer paid at most its price × filled + <1 per fill; a seller received at least price × filled − <1 per fill,
+where for a market order "its price" is the computed limit `last ± ratio`) -/
+theorem order_within_amount_all_orders (prec : Nat) (hprec : 10 ^ prec < 2 ^ 300 - 1) (ratio : Int) (maxNumTicks : Nat)
+    (bs : List MBatch) (hok : RunOk prec ratio maxNumTicks MState.init bs) :
+    ∀ so ∈ (runMBatches MState.init prec ratio maxNumTicks bs).k.orders,
+      0 ≤ so.openAmt ∧ so.openAmt ≤ so.amount ∧ 0 ≤ so.remaining ∧ so.remaining ≤ so.offer ∧
+      monOrderWithinAmount so = true ∧ monOrderLimit so = true := by
+  intro so hso
+  have h := (runMBatches_inv prec hprec ratio maxNumTicks MState.init bs (KInv.init prec) hok).inv so hso
+  exact ⟨h.open_nonneg, h.open_le, h.rem_nonneg, h.rem_le, h.monitors.1, h.monitors.2⟩
+
+/-- non-vacuity: last price 1.0, ratio 10 %, precision 4: a market buy is stored with the limit 1.1 (= tick 1261000), a market sell
+with 0.9; an MM buy ladder 0.97 … 0.9999 of 100000 in 10 ticks puts 10000 on each tick; the run below (limit orders making the last
+price 1.0, then a market buy of 1000 against a limit sell of 600 @ 1.0) fills the market order for 600 at 1.0, not at its limit -/
+example :
+    let P : Int := 1000000000000000000
+    marketPrice 4 .buy P (P / 10) = 11 * P / 10 ∧ marketPrice 4 .sell P (P / 10) = 9 * P / 10 ∧
+    (mmOrderTicks .buy (97 * P / 100) (9999 * P / 10000) 100000 10 4).length = 10 ∧
+    (mmOrderTicks .buy (97 * P / 100) (9999 * P / 10000) 100000 10 4).getLast? = some (9999 * P / 10000, 10000) ∧
+    ((runMBatches MState.init 4 (P / 10) 10
+        [⟨[.limit .buy P 100 0, .limit .sell P 100 0], 0⟩,
+         ⟨[.market .buy 1000 3600, .limit .sell P 600 5], 5⟩]).k.orders.map
+      fun (o : SOrder) => (o.id, o.price, o.openAmt, o.remaining, o.received, o.status.code)) =
+      [(3, 11 * P / 10, 400, 500, 600, 3)] := by
+  set_option maxRecDepth 100000 in
+  refine ⟨by decide, by decide, by decide, by decide, by decide⟩
+
+/-- …and its hypotheses are satisfiable: the market order of that run is acceptable (`MsgOk`) at the last price 1.0 -/
+example : MsgOk 4 100000000000000000 10 (some 1000000000000000000) (.market .buy 1000 3600) := by
+  refine ⟨by decide, ?_⟩
+  intro lp hlp
+  cases hlp
+  exact market_order_price_on_grid 4 (by decide) .buy _ _ 1100000000000000000 (by decide) (by decide)
+    (by set_option maxRecDepth 100000 in decide)
 
 /-- non-vacuity, and the scenario of the seeded edit s64 on the model: last price 1.0; a buy of 1000 @ 1.1 (offer 1100) is filled
 600 at 1.0 (400 open, 500 quote left — which would buy 454 at 1.1); against a later sell of 1000 @ 1.0 it takes exactly its 400
